@@ -808,7 +808,7 @@ def emit(ctx, cases):
             items.append((sum(l[3] for l in ls), i, ls))
     # greedy packing: expensive goals first, bins of bounded cost and size
     items.sort(key=lambda t: -t[0])
-    nb = max(1, min(40, int(sum(t[0] for t in items) / 20) + 1))
+    nb = max(1, min(32, max(16, int(sum(t[0] for t in items) / 12) + 1)))
     bins = [[0.0, []] for _ in range(nb)]
     for it in items:
         b = min(bins, key=lambda b: (b[0], len(b[1])))
